@@ -41,6 +41,9 @@ pub enum DropPoint {
     AfterFinish,
     /// finish() whose final sink write / flush fails
     AfterFailedFinish,
+    /// everything flushed (pool idle), then exactly one more complete unit is written and the object
+    /// is dropped immediately
+    IdleThenUnitThenDrop,
 }
 
 pub const WORKER_REQUESTS: [u32; 9] = [0, 1, 2, 3, 16, 256, 257, 1000, u32::MAX];
@@ -71,6 +74,8 @@ pub fn run_case(ctx: &Ctx, idx: u64) -> Vec<CaseOut> {
             DropPoint::AfterError,
             DropPoint::AfterFinish,
             DropPoint::AfterFailedFinish,
+            DropPoint::IdleThenUnitThenDrop,
+            DropPoint::IdleThenUnitThenDrop,
         ])
     };
     let requested = if idx < STEER { 2 } else { *r.pick(&WORKER_REQUESTS) };
@@ -178,6 +183,13 @@ pub fn run_case(ctx: &Ctx, idx: u64) -> Vec<CaseOut> {
                         DropPoint::AfterAllIo | DropPoint::AfterError => {
                             let _ = w.write_all(&d2);
                             let _ = w.flush();
+                            drop(w)
+                        }
+                        DropPoint::IdleThenUnitThenDrop => {
+                            let _ = w.write_all(&d2);
+                            let _ = w.flush();
+                            let one_unit = vec![0x55u8; 4096];
+                            let _ = w.write_all(&one_unit);
                             drop(w)
                         }
                         DropPoint::AfterFinish | DropPoint::AfterFailedFinish => {
